@@ -78,10 +78,10 @@ def numeric_deviations(base: dict):
 
 def rebuild(code: str, import_stmt: str, mode: str, class_name: str | None):
     ns: dict = {}
-    exec(import_stmt, ns)  # noqa: S102
     if mode == "repr":
+        exec(import_stmt, ns)  # noqa: S102
         return eval(code, ns)  # noqa: S307
-    exec(code, ns)  # noqa: S102
+    exec(code, ns)  # noqa: S102  (encapsulated code is self-contained: it carries its own import statement)
     if class_name is not None:
         return ns[class_name]().engine
     return ns["create"]()
@@ -98,9 +98,45 @@ def weights_ok(recipe) -> bool:
     return True
 
 
+EXPORTERS: dict = {}
+
+
+def exporter(formatted: bool, encapsulated: bool):
+    """Long-lived exporter objects: created once per worker (under whatever alias was in force then), used under every alias."""
+    key = (formatted, encapsulated)
+    if key not in EXPORTERS:
+        EXPORTERS[key] = fl.PythonExporter(formatted=formatted, encapsulated=encapsulated)
+    return EXPORTERS[key]
+
+
+def stepwise_engine():
+    """An engine assembled step by step (never through Engine(...)) whose Function terms carry their own variables."""
+    e = fl.Engine("stepwise", "assembled step by step")
+    a = fl.InputVariable("a", "", True, 0.0, 1.0, False)
+    a.terms.append(fl.Triangle("lo", -0.5, 0.0, 1.0))
+    e.input_variables.append(a)
+    a.terms.append(fl.Function("fin", "scale * x", engine=e, variables={"scale": 0.5}, load=True))
+    o = fl.OutputVariable("o", "", True, -5.0, 5.0, False, False, NAN, None, fl.WeightedAverage("TakagiSugeno"))
+    e.output_variables.append(o)
+    o.terms.append(fl.Function("f", "gain * a + offset", engine=e, variables={"gain": 2.0, "offset": 0.25}, load=True))
+    o.terms.append(fl.Constant("k", -1.0))
+    rb = fl.RuleBlock("rb", "", True, None, None, None, fl.General())
+    rb.rules.append(fl.Rule.create("if a is lo then o is f"))
+    rb.rules.append(fl.Rule.create("if a is not lo then o is k with 0.500"))
+    e.rule_blocks.append(rb)
+    rb.load_rules(e)
+    return e
+
+
+SPECIAL_ENGINES = {"stepwise": stepwise_engine}
+
+
 def run_recipe(acc: Acc, group: str, label: str, recipe: dict, aliases, formatted_too: bool) -> None:
-    E = R.build(recipe, flags_by_assignment=True)  # the rebuilt engine E' goes through the constructors
-    n_in = len(recipe["inputs"])
+    if "special" in recipe:
+        E = SPECIAL_ENGINES[recipe["special"]]()
+    else:
+        E = R.build(recipe, flags_by_assignment=True)  # the rebuilt engine E' goes through the constructors
+    n_in = len(E.input_variables)
     base_outputs = None
     for alias, mode in itertools.product(aliases, ("repr", "encapsulated")):
         for formatted in ((False, True) if formatted_too else (False,)):
@@ -111,7 +147,7 @@ def run_recipe(acc: Acc, group: str, label: str, recipe: dict, aliases, formatte
                 acc.transitions += 1
                 acc.case((label, alias, mode, formatted), nontrivial=True)
                 import_stmt = fl.representation.import_statement()
-                code = fl.PythonExporter(formatted=formatted, encapsulated=(mode == "encapsulated")).to_string(E)
+                code = exporter(formatted, mode == "encapsulated").to_string(E)
                 want_repr = repr(E)
                 if repr(E) != want_repr:
                     acc.violate("not-repeatable", {"group": group}, case, want_repr[:120], "differs", f"[{label}]: repr of the same engine differs between two calls")
@@ -285,6 +321,11 @@ def run_shard(tier: str, seed: int, shard: int):
                 iv.value = 0.3
             E.process()
             acc.guard({"label": f"components:{base['name']}", "group": "component"}, run_components, acc, components_of(E), f"components:{base['name']}")
+    if shard == 21:
+        recipe = {"special": "stepwise", "name": "stepwise", "inputs": [], "outputs": [], "blocks": []}
+        acc.states += 1
+        acc.cls("group_special")
+        acc.guard({"label": "stepwise", "group": "special", "recipe": recipe}, run_recipe, acc, "special", "stepwise", recipe, ALIASES, True)
     if shard == 20:
         acc.guard({"label": "components:standalone", "group": "component"}, run_components, acc, standalone_components(), "components:standalone")
     if shard == 0:
@@ -334,6 +375,7 @@ def replay(case: dict):
         acc.guard(case, run_components, acc, comps, label)
         return [v for v in acc.violations if v["case"].get("repr") == case.get("repr") and v["case"]["alias"] == case["alias"]]
     recipe = c01.fix_recipe(case["recipe"])
-    aliases = [case["alias"]] if "alias" in case else ALIASES
+    EXPORTERS.clear()  # the long-lived exporters are created under the first alias again, as in the run
+    aliases = ALIASES[: ALIASES.index(case["alias"]) + 1] if case.get("alias") in ALIASES else ALIASES
     acc.guard(case, run_recipe, acc, case["group"], case["label"], recipe, aliases, bool(case.get("formatted")))
     return acc.violations
